@@ -1,7 +1,15 @@
 """Per-property correspondence plugins. Each returns a Result."""
-import collections, json, os, re, shutil, subprocess, time
+import collections, json, os, re, resource, shutil, subprocess, time
 from concurrent.futures import ThreadPoolExecutor
 import common as C
+
+
+def _big_stack():
+    # the extracted list functions (length, map, app) are not tail recursive: values of several hundred KB need a deep stack
+    try:
+        resource.setrlimit(resource.RLIMIT_STACK, (resource.RLIM_INFINITY, resource.RLIM_INFINITY))
+    except (ValueError, OSError):
+        pass
 
 
 class Ctx:
@@ -95,14 +103,14 @@ def run_sharded(ctx, sub, shards, args_of, timeout, oracle_mode=None, more_modes
         except subprocess.TimeoutExpired as e:
             hout, hrc = "harness timeout: " + str(e), 124
         try:
-            q = subprocess.run([C.oracle_exe(), oracle_mode or sub, trace], stdout=subprocess.PIPE, stderr=subprocess.STDOUT, text=True, timeout=timeout, errors="replace")
+            q = subprocess.run([C.oracle_exe(), oracle_mode or sub, trace], stdout=subprocess.PIPE, stderr=subprocess.STDOUT, text=True, timeout=timeout, errors="replace", preexec_fn=_big_stack)
             oout, orc = q.stdout, q.returncode
         except subprocess.TimeoutExpired as e:
             oout, orc = "oracle timeout", 124
         outs = [(trace, hrc, hout, orc, oout)]
         for m in more_modes:       # further projections of the same trace
             try:
-                q = subprocess.run([C.oracle_exe(), m, trace], stdout=subprocess.PIPE, stderr=subprocess.STDOUT, text=True, timeout=timeout, errors="replace")
+                q = subprocess.run([C.oracle_exe(), m, trace], stdout=subprocess.PIPE, stderr=subprocess.STDOUT, text=True, timeout=timeout, errors="replace", preexec_fn=_big_stack)
                 outs.append((trace, 0, "", q.returncode, q.stdout))
             except subprocess.TimeoutExpired:
                 outs.append((trace, 0, "", 124, "oracle timeout"))
@@ -361,4 +369,32 @@ def c15(ctx):
     return res
 
 
-PLUGINS = {"C15": c15, "C13": c13, "C08": c08, "C11": c11, "C02": c02, "C06": c06, "C10": c10, "C05": c05, "C09": c09, "C04": c04, "C07": c07, "C12": c12}
+def c18(ctx):
+    """C18 MaxSize: histories that keep growing the data (values up to 34 pages) under random limits (0 = none, 70 KB .. 6 MiB, aligned to nothing), initial map sizes 0/64 KiB/2 MiB/8 MiB,
+    allocation chunks 64 KiB/1 MiB/16 MiB, page sizes 1024/4096/16384, grow-sync and freelist-sync on/off, with deletes, reopenings and writes after a refusal.
+    (K) Grow.alloc_refused predicts every ErrMaxSizeReached from the real allocation events, Grow.grow / grow_nosync predict the file length after every commit; Spec.v: a refused transaction changes nothing;
+    (S) file length <= max(MaxSize, length at open) after every commit; accounting of every image."""
+    res = Result()
+    res.rule = "distinct by MD5 of the op list (options included); non-trivial if the file grew, a transaction was refused, or the limit was exceeded"
+    with ctx:
+        n = "12" if (ctx.tier == "quick" or ctx.budget_s) else "400"
+        shards = 8 if ctx.tier == "quick" else 16
+        if ctx.replay:
+            runs = run_sharded(ctx, "c18", 1, lambda i: ["-replay", ctx.replay, "-dir", "{dir}"], 900, oracle_mode="c04", more_modes=("c18", "c07"))
+        else:
+            runs = run_sharded(ctx, "c18", shards, lambda i: ["-seed", str(ctx.seed * 1000 + i), "-n", n, "-dir", "{dir}"], ctx.budget_s or (900 if ctx.tier == "quick" else 3000),
+                               oracle_mode="c04", more_modes=("c18", "c07"))
+        for j, r in enumerate(runs):
+            sub = Result()
+            absorb(sub, "C18", *r)
+            if j % 3 == 0:
+                sub.propfails += sub.mismatches
+                sub.mismatches = []
+            else:
+                sub.evaluations = 0
+                sub.validated = 0
+            res.merge(sub)
+    return res
+
+
+PLUGINS = {"C18": c18, "C15": c15, "C13": c13, "C08": c08, "C11": c11, "C02": c02, "C06": c06, "C10": c10, "C05": c05, "C09": c09, "C04": c04, "C07": c07, "C12": c12}
